@@ -352,13 +352,26 @@ package parser2
 //@   assigns nothing
 //@   trusted
 
+// The operator-table setup (first Parse only): a prefix operator that is also a binary operator gets, as opPos, an index
+// of a binary operator with its own spelling - for EVERY such prefix operator (seeds C03-1 / C03-3). The maps are not
+// modified while ranged over (option map-ranges-complete: a range visits every key once, mapkey(m, n) in iteration n);
+// the entries of the unary table are objects of their own (requires entries-not-shared: ASSUMED, Unary() allocates one
+// entry per key; not machine-checked, the allocation site inside its loop is one reference in the encoding).
+//@ predicate entriesNotShared(p any) = forall a string, b string :: haskey(p.unary, a) && haskey(p.unary, b) && a != b ==> p.unary[a] != p.unary[b]
+//@ predicate samePos(p any, k string) = 0 <= p.unary[k].opPos && p.unary[k].opPos < len(p.operators) && p.operators[p.unary[k].opPos] == k
 //@ func (p *Parser[V]) Parse
 //@   property C03 C12
 //@   safety C04
+//@   option map-ranges-complete
 //@   requires unaryOK(p)
+//@   requires[entries-not-shared] entriesNotShared(p)
 //@   loop 1 invariant unaryOK(p)
 //@   loop 2 invariant unaryOK(p) && 0 <= rangeidx && rangeidx <= len(p.operators)
+//@   loop 2 invariant[same-spelling C03] forall k string :: haskey(p.unary, k) ==> (forall j in 0..rangeidx :: p.operators[j] == k ==> samePos(p, k))
 //@   loop 3 invariant unaryOK(p) && 0 <= i && i < len(p.operators)
+//@   loop 3 invariant[same-spelling C03] forall k string :: haskey(p.unary, k) ==> (forall j in 0..i :: p.operators[j] == k ==> samePos(p, k))
+//@   loop 3 invariant[same-spelling-inner C03] 0 <= rangeidx && (forall jj in 0..rangeidx :: mapkey(p.unary, jj) == p.operators[i] ==> samePos(p, p.operators[i]))
+//@   assert[every-prefix-operator-has-its-binary-position C03] "NewTokenizer(" old(p.operatorDetect == nil) ==> (forall k string :: haskey(p.unary, k) ==> (forall j in 0..len(p.operators) :: p.operators[j] == k ==> samePos(p, k)))
 //@   ensures[eof-checked C03] err == nil ==> pos(lastTok(p)) == ntoks(lastTok(p))
 //@   ensures[goroutine-ended C12] cpos(lastTok(p)) == ntoks(lastTok(p))
 //@   ghost-set "Start()" lastTok(p) = tokenizer
